@@ -37,7 +37,19 @@ VecB == {Feat(<<Scn(<<Lit("M")>>, <<"o1", "o2">>,
 VecC == {Feat(<<Scn(<<Lit("U "), Ph(n)>>, <<>>, <<Step(<<Ph("a"), Ph(m)>>, <<>>, <<>>)>>,
                    <<Tb(<<>>, <<"a", "b">>, rows)>>)>>, <<>>)
           : n \in {"a", "zz"}, m \in {"b", "yy", "a"}, rows \in {<<>>, <<<<"v1", "v2">>>>}}
-Vectors == CASE Group = "A" -> VecA [] Group = "B" -> VecB [] Group = "C" -> VecC
+\* D: placeholder names with punctuation / non-ASCII letters / digits, values with a backslash or
+\* `${..}` replacement syntax, three tables with three rows, placeholders in the name, a step, a doc
+\* string and a cell at once
+NamesD == {"a.b", "é", "x-1", "A_2"}
+VecD == {LET n == p[1]   m == p[2] IN
+         Feat(<<Scn(<<Ph(n), Lit(" / "), Ph(m)>>, <<"o1">>,
+                   <<Step(<<Lit("do "), Ph(m), Ph(n)>>, <<Ph(n)>>, << <<Ph(m), Lit("k")>> >>)>>,
+                   <<Tb(<<"t1">>, <<n, m>>, <<<<"v1", x>>, <<x, "v2">>, <<"", "v3">>>>),
+                     Tb(<<>>, <<m, n>>, <<<<"w1", "w2">>>>),
+                     Tb(<<"t2">>, <<n, "unused", m>>, <<<<x, "u", x>>, <<"v7", "u", "v8">>, <<"v9", "", "">>>>)>>),
+               Plain1>>, <<>>)
+          : p \in {q \in NamesD \X NamesD : q[1] # q[2]}, x \in {"\\1", "${a}", "<é>", "a.b"}}
+Vectors == CASE Group = "A" -> VecA [] Group = "B" -> VecB [] Group = "C" -> VecC [] Group = "D" -> VecD
 Init == v \in Vectors
 Next == UNCHANGED v
 Spec == Init /\ [][Next]_v
